@@ -6,6 +6,7 @@ text; every reader has a lemma, over the FULL code space of its fields, that wha
 the table (`read_rangeGood`, `Proofs/Decode/BdsNN.lean`); this file states the composition.
 -/
 import Rs1090.Proofs.Decode.AllGood
+import Rs1090.Props.C01
 namespace Rs1090.Props.C08
 open Rs1090 Rs1090.Model Rs1090.Model.Message
 
@@ -28,6 +29,12 @@ theorem numbers_finite (bs : List Nat) (j : Json) (h : tryFrom bs = .ok (.json j
   cases e
   simp only [Json.wf, Bool.and_eq_true, decide_eq_true_eq]
   exact ⟨hw, hn⟩
+
+/-- the same for the pipeline's entry point `Message::from_bytes` (trailing bytes after the frame ignored) -/
+theorem accepted_in_range_from_bytes (bs : List Nat) (j : Json) (h : fromBytes bs = .ok (.json j)) :
+    j.inRange = true ∧ j.wf = true := by
+  obtain ⟨_, ht⟩ := Rs1090.Props.C01.fromBytes_prefix bs _ h
+  exact ⟨accepted_in_range _ j ht, numbers_finite _ j ht⟩
 
 /-- the table really constrains something: the keys of the property's quantities are in it -/
 example : (specFor (key! "track").id).isSome ∧ (specFor (key! "heading").id).isSome ∧
